@@ -5,7 +5,7 @@ A comment is a *structure*, never a text that the oracle would have to parse:
 
     (role, form, toks, sep, wsv, text)
 
-    role  who posts it: 'author' | 'admin' | 'admin_author' | 'other' | 'robot'
+    role  who posts: 'author' | 'admin' | 'admin_author' | 'other' | 'robot'
     form  addressing form: 'at' (@robot kw) | 'atc' (@robot: kw) | 'slash' (/kw)
     toks  1-2 keywords, each (name, arg-or-None)
     sep   the separator between two keywords, one of ' ,.-:;|+'
